@@ -1,4 +1,5 @@
 import AnonCreds.Props.C05
+import AnonCreds.Model.Verify
 /-
 C09 — equality statements are accepted only for identical signed values.
 The equality verifier collects, for every referenced (statement, claim index), the hidden-message
@@ -18,10 +19,7 @@ theorem equality_sound (c c' : F) (ps ps' : List F) (p0 p0' : F)
     (x - x') / (c - c') = (p0 - p0') / (c - c') := by
   rw [h x (List.mem_of_getElem? hk), h' x' (List.mem_of_getElem? hk')]
 
-/-- the verifier's test as coded: every element equals the first -/
-def allEqual [DecidableEq F] : List F → Bool
-  | [] => false            -- "must have at least one claim in an equality proof"
-  | p :: ps => ps.all (· == p)
+open AC.Verify (allEqual)
 
 theorem allEqual_spec [DecidableEq F] (p : F) (ps : List F) (h : allEqual (p :: ps) = true) :
     ∀ q ∈ ps, q = p := by
